@@ -110,6 +110,32 @@ def valid_filename(value: str) -> str:
     return f"mb_{value}"
 
 
+def _check_unique_names(file: Path) -> None:
+    """Refuse a document in which two ids become the same Python name.
+
+    The ids of the document are turned into Python names when it is parsed ('if' and
+    'if_' both into 'if_', 'a__46__b' and 'ab' both into 'ab'). Two components with
+    the same name would be merged into one without a trace.
+    """
+    import libsbml
+    from pysbml.parse.name_conversion import name_to_py
+
+    doc = libsbml.readSBMLFromFile(str(file))
+    if (sbml_model := doc.getModel()) is None:
+        return
+    ids = {
+        el.getId()
+        for el in sbml_model.getListOfAllElements()
+        if el.isSetId() and el.getTypeCode() != libsbml.SBML_UNIT_DEFINITION
+    }
+    by_name: dict[str, list[str]] = {}
+    for sbml_id in sorted(ids):
+        by_name.setdefault(name_to_py(sbml_id), []).append(sbml_id)
+    if clash := [v for v in by_name.values() if len(v) > 1]:
+        msg = f"Ids of the document that would get the same name: {clash}"
+        raise ValueError(msg)
+
+
 def read(file: Path) -> Model:
     """Import a metabolic model from an SBML file.
 
@@ -120,6 +146,7 @@ def read(file: Path) -> Model:
         Model: Imported model instance.
 
     """
+    _check_unique_names(file)
     model = pysbml.load_and_transform_model(file)
     # The generated module stays on disk as the source of the model's functions.
     # Name it after the content, so that another document with the same stem
